@@ -55,6 +55,9 @@ func (b *SigBlob) Requirements() (Requirements, error) {
 	}
 	reqs := make(Requirements)
 	for _, item := range items {
+		if len(item.data) < 8 {
+			return nil, errors.New("internal requirements: item too short")
+		}
 		reqs[RequirementType(item.itype)] = &Requirement{Raw: item.data[8:]}
 	}
 	return reqs, nil
